@@ -460,7 +460,7 @@ NUM_STRINGS = [
 WRONG_KINDS = [None, True, False, 0, 1, 42, -3, 4.5, 1e22, 100000.0, ("L", ["a", "b"]), ("L", []), ("L", [1, "2"]), ("L", ["a"]), ("L", ["a", "b", "c"]), ("M", [("k", "v")]),
                ("Z", "x = 1", "python"), ("Z", "", None), ("L", [("L", ["a"])])]
 API_ONLY_KINDS = [float("inf"), float("-inf"), float("nan"), -0.0, ("L", [("Z", "1", None)]), ("M", [("STATUS", "active")])]
-GENERIC_STRINGS = ["", "x", "XYZ", "active", "A", "a", "1", " "]
+GENERIC_STRINGS = ["", "x", "XYZ", "active", "A", "a", "1", " ", "TRUE", "True", "NULL", "False"]
 
 
 def random_numeral(rng) -> str:
